@@ -158,9 +158,42 @@ impl Report {
     }
 }
 
-/// Run `f`, mapping a panic to Err(message).  The default hook is silenced by main().
+thread_local! {
+    static GUARD_DEPTH: std::cell::Cell<u32> = std::cell::Cell::new(0);
+    static LAST_LOC: std::cell::RefCell<String> = std::cell::RefCell::new(String::new());
+}
+
+/// Panic hook installed by `hv::cli()`: silent inside `guarded` (the location is remembered, see
+/// `last_panic_location`), loud for a panic of the harness itself so that an abnormal exit is explained.
+pub fn install_panic_hook() {
+    std::panic::set_hook(Box::new(|info| {
+        let loc = info.location().map(|l| format!("{}:{}", l.file(), l.line())).unwrap_or_default();
+        let depth = GUARD_DEPTH.with(|d| d.get());
+        if depth == 0 {
+            let msg = if let Some(s) = info.payload().downcast_ref::<String>() {
+                s.clone()
+            } else if let Some(s) = info.payload().downcast_ref::<&str>() {
+                s.to_string()
+            } else {
+                "panic".to_string()
+            };
+            eprintln!("UNGUARDED PANIC in harness at {loc}: {msg}");
+        }
+        LAST_LOC.with(|l| *l.borrow_mut() = loc);
+    }));
+}
+
+/// Source location (`file:line`) of the most recent panic on this thread ("" if none).
+pub fn last_panic_location() -> String {
+    LAST_LOC.with(|l| l.borrow().clone())
+}
+
+/// Run `f`, mapping a panic to Err(message).  The hook installed by `hv::cli()` keeps it silent.
 pub fn guarded<T>(f: impl FnOnce() -> T) -> Result<T, String> {
-    match catch_unwind(AssertUnwindSafe(f)) {
+    GUARD_DEPTH.with(|d| d.set(d.get() + 1));
+    let r = catch_unwind(AssertUnwindSafe(f));
+    GUARD_DEPTH.with(|d| d.set(d.get().saturating_sub(1)));
+    match r {
         Ok(v) => Ok(v),
         Err(e) => Err(if let Some(s) = e.downcast_ref::<String>() {
             s.clone()
